@@ -109,7 +109,7 @@ ASSUMPTIONS = [
     "J2 histories: the user's orbit is kept in keplerian_mean form (writes by index 0..5 and of the date); the model's epoch is seconds from the first epoch",
     "sso: a > 0, mu > 0, re != 0, J2 != 0, e^2 != 1 (0 <= e < 1 for the eccentricity mode) and -1 <= ssoCos <= 1 (a sun-synchronous inclination exists)",
     "the 'mean solar rate' is the constant the code uses, 2 pi / 365.256363004 d (sidereal year); the tropical-year rate differs from it by 3.9e-5 relative",
-    "B-plane: e > 1, h != 0, S not along the pole (0,0,1) (T undefined there); |a| is an input of the model (cartesian -> keplerian conversion belongs to C01)",
+    "B-plane: e > 1, h != 0, S not exactly along the pole +-(0,0,1) (T undefined there; every other direction, however close, is inside the theorem bplane_orthonormal and inside the generators down to 1e-5 rad); |a| is an input of the model (cartesian -> keplerian conversion belongs to C01)",
     "Walker: planes != 0, planes | total for count and phasing",
 ]
 NOT_COVERED = [
@@ -133,13 +133,13 @@ RULE = ("correspondence: random inputs from ctx.rng through the real functions a
         "on the same geometry, histories propagate / orb[k] = v / orb.date = t on one Orbit object with a J2 propagator against the J2Obj state machine, sso 3 modes + J2 node rate measured "
         "through J2.propagate, ltan both types (sun angle taken from the real code), "
         "Walker fleets bit-exact incl. planes not dividing total and raan0 != 0 (whole degrees, tenths, next to 2 pi), beta vs Orbit references incl. axis-aligned orbits and bodies exactly on an axis / on the normal, "
-        "bplane for e in [1.05,10] incl. hyperbolas in coordinate planes; non-trivial = every case; distinct = distinct request. "
+        "bplane for e in [1.05,10] incl. hyperbolas in coordinate planes and polar approaches (asymptote 1e-5 .. 0.3 rad from +z or -z, any orbit plane through it; T, R, theta compared with the 1/sin conditioning); non-trivial = every case; distinct = distinct request. "
         "oracle: Lambert arrival within 10 m by independent (bracketed) universal-variable propagation and by the Kepler propagator through the public lambert(); on hand-written geometry both requests: finite, arrival at "
         "both ends, direction of r0 x v0, two ways round; sso round trips + node rate; sso -> Orbit(J2) -> propagate|iter -> tune i|a|e in place -> propagate|iter: solar rate and equal to a fresh object; "
         "Lambert durations from minutes (fractional seconds) to 60 days (exactly n days, n days + fraction, 24 h + a little) as timedelta(days, seconds, microseconds), propagated for the requested duration, both ends, both requests, both APIs; "
         "an exception inside an oracle case is a failing input of that case; "
         "ltan round trips; Walker count/planes/in-plane/phasing (thorough: every p <= 6, t/p <= 4, f < p); beta range + elevation incl. bodies on the orbit normal and on the axes; "
-        "bplane S/orthonormal/B perp/|B|/B x v_inf = h incl. coordinate planes; read - modify in place - read again on the objects handed to beta, bplane and on Walker objects")
+        "bplane S/orthonormal/B perp/|B|/B x v_inf = h incl. coordinate planes and polar approaches from the north and the south (asymptote 1e-5 .. 0.3 rad from the pole, Earth/Moon/Sun); read - modify in place - read again on the objects handed to beta, bplane and on Walker objects")
 
 MU_E = 3.986004418e14          # only used by the generators to make plausible cases; the checks read mu from the real frames
 TWO_PI = 2 * math.pi
@@ -1184,14 +1184,31 @@ def check_beta(out, rng, mode=None):
 
 # ---------------------------------------------------------------- B-plane
 
-def hyper_state(rng, axis, mu, scale=1.0):
+def hyper_state(rng, axis, mu, scale=1.0, polar=False):
     """a hyperbolic state (e in [1.05, 10], any anomaly short of the asymptotes); axis=True: the hyperbola lies in a plane
-    spanned by exact unit vectors, with the periapsis direction P along one of them (exact-zero components throughout)"""
+    spanned by exact unit vectors, with the periapsis direction P along one of them (exact-zero components throughout);
+    polar=True: the incoming asymptote is close to (never on) the pole +-z of the frame, the orbit plane is any plane containing it"""
     import numpy as np
     e = rng.choice([rng.uniform(1.05, 2.0), rng.uniform(2.0, 10.0)])
     a = -rng.uniform(5e6, 5e8) * scale
     nu = rng.uniform(-0.97, 0.97) * math.acos(-1 / e)
-    if axis:
+    if polar:
+        # polar approach: the incoming asymptote S makes an angle delta with the pole +z or -z of the frame, delta log-uniform from
+        # 1e-5 rad to 0.3 rad (T = S x N / |S x N| is regular for every delta > 0: |S x N| = sin(delta)); the orbit plane contains S,
+        # its normal W is any unit vector perpendicular to S
+        delta = math.exp(rng.uniform(math.log(1e-5), math.log(0.3)))
+        az = rng.choice([0.0, math.pi / 2, rng.uniform(0, TWO_PI), rng.uniform(0, TWO_PI)])
+        sgn = rng.choice([1.0, -1.0])
+        S = np.array([math.sin(delta) * math.cos(az), math.sin(delta) * math.sin(az), sgn * math.cos(delta)])
+        u = np.cross(S, [1.0, 0.0, 0.0] if abs(S[0]) < 0.9 else [0.0, 1.0, 0.0])
+        u /= np.linalg.norm(u)
+        psi = rng.uniform(0, TWO_PI)
+        W = math.cos(psi) * u + math.sin(psi) * np.cross(S, u)
+        cb, sb = 1 / e, math.sqrt(e * e - 1) / e
+        P = cb * S - sb * np.cross(W, S)
+        Q = np.cross(W, P)
+        kind = "polar-" + ("north" if sgn > 0 else "south") + ("-in-cone" if math.sin(delta) < 0.05 else "")
+    elif axis:
         while True:
             P, Q, kind = gen_plane(rng, True)
             # S must not be along the pole (0, 0, 1) (T undefined there): true for every e when the plane is not spanned by z and S
@@ -1209,22 +1226,28 @@ def hyper_state(rng, axis, mu, scale=1.0):
     return a, e, nu, P, Q, r, v, kind
 
 
-def check_bplane(out, rng, axis=False, center="Earth"):
+def check_bplane(out, rng, axis=False, center="Earth", polar=False, preset=None):
     import numpy as np
     from beyond.orbits import Orbit
     from beyond.dates import Date
     from beyond.utils.interplanetary import bplane
     frame, mu = center_frame(center)
-    a, e, nu, P, Q, r, v, kind = hyper_state(rng, axis, mu, CENTER_SCALE[center])
+    if preset is not None:      # replay of a recorded case
+        a, e, nu, kind = preset["a"], preset["e"], preset["nu"], preset["plane"]
+        r, v, S_exp = np.array(preset["state"][:3]), np.array(preset["state"][3:]), np.array(preset["S_expected"])
+    else:
+        a, e, nu, P, Q, r, v, kind = hyper_state(rng, axis, mu, CENTER_SCALE[center], polar=polar)
+        S_exp = P / e + Q * math.sqrt(e * e - 1) / e      # direction of the velocity for nu -> -nu_inf
     orb = Orbit(list(r) + list(v), Date(2023, 5, 6), "cartesian", frame, None)
     bp = bplane(orb)
     B, S, T, Rv, h = (np.asarray(x, float) for x in (bp.B, bp.S, bp.T, bp.R, bp.h))
-    S_exp = P / e + Q * math.sqrt(e * e - 1) / e      # direction of the velocity for nu -> -nu_inf
     bn = abs(a) * math.sqrt(e * e - 1)
-    inp = {"a": a, "e": e, "plane": kind, "nu": nu, "center": center, "state": [float(x) for x in list(r) + list(v)]}
-    out.count(key=("bplane", a, e, nu), kind="bplane" + ("-axis" if axis else ""), e_range="<2" if e < 2 else ">=2", side="incoming" if nu < 0 else "outgoing", center=center)
+    inp = {"a": a, "e": e, "plane": kind, "nu": nu, "center": center, "state": [float(x) for x in list(r) + list(v)], "S_expected": [float(x) for x in S_exp],
+           "axis": axis, "polar": polar}
+    out.count(key=("bplane", a, e, nu), kind="bplane" + ("-polar" if polar else "-axis" if axis else ""), e_range="<2" if e < 2 else ">=2", side="incoming" if nu < 0 else "outgoing", center=center,
+              **({"approach": kind} if polar else {}))
     tol = 1e-9 * e * e / (e - 1)
-    sfx = ("-axis" if axis else "") + ("" if center == "Earth" else "-" + center)
+    sfx = ("-polar" if polar else "-axis" if axis else "") + ("" if center == "Earth" else "-" + center)
     if not np.all(np.isfinite(np.concatenate([B, S, T, Rv]))):
         out.fail("bplane-nonfinite" + sfx, "B-plane of a hyperbolic state is not finite", inp, observed=[list(map(float, x)) for x in (B, S, T, Rv)])
         return
@@ -1570,6 +1593,23 @@ def correspondence(ctx):
         out.count(key=("bplane-axis", a, e, nu), kind="bplane-axis", plane=kind.split("-")[0])
         add(" ".join(["bplane", f2b(mu), f2b(aabs)] + [f2b(x) for x in list(r) + list(v)]),
             lambda rep, real=real, inp=inp, sc=sc: _cmp(out, "model-bplane-axis", "bplane differs from the model", inp, real, _floats(rep), rtol=1e-9, scales=sc, skip=(3,)))
+    # 7c. polar approaches: the asymptote S close to the pole +-z of the frame, where T = S x N / |S x N| divides by sin(delta);
+    #     T, R and theta are conditioned like 1 / sin(delta) there (the rounding of S is amplified), S, B, e, h are not
+    for _ in range(ctx.n(80, 3000)):
+        a, e, nu, P, Q, r, v, kind = hyper_state(rng, False, mu, polar=True)
+        orb = Orbit(list(r) + list(v), Date(2023, 5, 6), "cartesian", "EME2000", None)
+        bp = bplane(orb)
+        aabs = abs(float(orb.infos.kep.a))
+        real = [float(x) for x in list(np.asarray(bp.B)) + [bp.theta] + list(np.asarray(bp.S)) + list(np.asarray(bp.T)) + list(np.asarray(bp.R)) + list(np.asarray(bp.e)) + list(np.asarray(bp.h))]
+        bn = float(np.linalg.norm(np.asarray(bp.B)))
+        hn = float(np.linalg.norm(np.asarray(bp.h)))
+        amp = e / (e - 1)
+        cond = 1 + 1e-4 / max(math.hypot(P[0] / e + Q[0] * math.sqrt(e * e - 1) / e, P[1] / e + Q[1] * math.sqrt(e * e - 1) / e), 1e-12)
+        sc = [bn * amp] * 3 + [1e3 * amp * cond] + [amp] * 3 + [amp * cond] * 6 + [e * amp] * 3 + [hn] * 3
+        inp = {"a": a, "e": e, "nu": nu, "approach": kind, "state": [float(x) for x in list(r) + list(v)], "aAbs": aabs}
+        out.count(key=("bplane-polar", a, e, nu), kind="bplane-polar", approach=kind)
+        add(" ".join(["bplane", f2b(mu), f2b(aabs)] + [f2b(x) for x in list(r) + list(v)]),
+            lambda rep, real=real, inp=inp, sc=sc: _cmp(out, "model-bplane-polar", "bplane differs from the model", inp, real, _floats(rep), rtol=1e-9, scales=sc))
     replies = core.Driver().run(reqs)
     for req, fn, rep in zip(reqs, post, replies):
         if rep == "bad-op":
@@ -1612,6 +1652,7 @@ def oracle(ctx, widened):
         guarded(out, check_helper_histories, rng)
         guarded(out, check_lambert_center, rng, ("Sun", "Moon", "Earth")[k % 3])
         guarded(out, check_bplane, rng, axis=(k % 2 == 0), center=("Moon", "Sun")[k % 2])
+        guarded(out, check_bplane, rng, polar=True, center=("Earth", "Earth", "Moon", "Sun")[k % 4])
         guarded(out, check_lambert_duration, rng, kind=DURATION_KINDS[k % len(DURATION_KINDS)])
     if big:
         # every small Walker triple, both patterns, a non-zero raan0
@@ -1621,7 +1662,7 @@ def oracle(ctx, widened):
                     guarded(out, check_walker, rng, preset=(p * sat, p, f, gen_raan0(rng)))
     out.sample({"checks": "lambert arrival (universal-variable + Kepler propagator) on arcs cut from orbits and on hand-written geometry (exact zeros, axis-aligned, both requests: "
                           "finite, arrival both ends, direction, two ways), sso self-inverse + J2 node rate incl. propagate -> tune in place -> propagate on one object, ltan<->raan, "
-                          "walker count/planes/phasing, beta range/elevation incl. axis-aligned, bplane S/orthonormal/B incl. coordinate planes, read - modify in place - read again on the helpers' objects"})
+                          "walker count/planes/phasing, beta range/elevation incl. axis-aligned, bplane S/orthonormal/B incl. coordinate planes and polar approaches (asymptote 1e-5 .. 0.3 rad from +-z), read - modify in place - read again on the helpers' objects"})
     return out
 
 
@@ -1648,6 +1689,8 @@ def replay(f):
         check_walker(out, random.Random(0), preset=(inp["t"], inp["p"], inp["f"], inp["raan0"]))
     elif fam.startswith("sso") and isinstance(inp, dict):
         check_sso(out, random.Random(0), preset=(inp["a"], inp["e"]))
+    elif fam.startswith("bplane") and isinstance(inp, dict) and "S_expected" in inp:
+        check_bplane(out, random.Random(0), axis=inp["axis"], center=inp["center"], polar=inp["polar"], preset=inp)
     else:
         full = oracle(core.Ctx(ID, "quick", 0), False)
         out.failures = [x for x in full.failures if x["family"] == fam]
